@@ -244,3 +244,12 @@ MUTANTS += [
 MUTANTS += [
     ("c07_context_identity_ignores_region", CF, "            return self.window == other.window and self.region == other.region\n        return False\n\n    def __key__(self):\n        return (\n            self.window,\n            getattr(self.region, \"wkb\", None),\n        )", "            return self.window == other.window\n        return False\n\n    def __key__(self):\n        return (\n            self.window,\n        )", ["C07"]),
 ]
+RS = "ioos_qc/results.py"
+MUTANTS += [
+    ("c06_dict_fill_good", RS, "        flag_arr.fill(QartodFlags.UNKNOWN)\n\n        # iterate over the CallResults", "        flag_arr.fill(QartodFlags.GOOD)\n\n        # iterate over the CallResults", ["C06"]),
+    ("c06_list_overwrite_on_new_context", RS, "            if cr.hash_key not in collected:\n                # Set the initial values", "            if cr.hash_key not in collected or r.subset_indexes.sum() > collected[cr.hash_key].results.count():\n                # Set the initial values", ["C06"]),
+    ("c06_hash_key_drops_package", RS, '        return f"{self.stream_id}:{self.package}.{self.test}"', '        return f"{self.stream_id}:{self.test}"', ["C06"]),
+    ("c06_axis_scatter_regress", RS, "                if values is None or np.size(values) != n_subset:\n                    continue\n", "", ["C06"]),
+    ("c06_all_covering_replaces_results", RS, "            collected[cr.hash_key].results[r.subset_indexes] = tr.results\n", "            if r.subset_indexes.any():\n                collected[cr.hash_key].results[r.subset_indexes] = tr.results\n            else:\n                collected[cr.hash_key].results = np.ma.masked_all(shape=r.subset_indexes.shape, dtype=tr.results.dtype)\n", ["C06"]),
+    ("c06_data_only_when_all", RS, "                else:\n                    getattr(collected[cr.hash_key], axis)[r.subset_indexes] = values\n", "", ["C06"]),
+]
